@@ -136,6 +136,13 @@ def run_history(v, h, toks, hid, rnd, page_size, nrows, tier):
             lead.append(("hl", "indexed_select", "r", {"index": xi_all[-1]}))
         elif after == "ddl_create" and len(tnames) > 3:
             lead.append(("hl", "select", tnames[-1], {}))
+        elif after == "alter_add":
+            # the very first thing after the table got a new column: a lookup by rowid (every operation fetches the
+            # table's definition on its own; none may take it from the previous transaction)
+            rows_r = x["tdb"].order[x["tdb"].root("r")]
+            if rows_r:
+                lead.append(("hl", "select_rowid", "r", {"rowid": x["tdb"].entries[rows_r[len(rows_r) // 2] - 1]["rowid"]}))
+                lead.append(("hl", "pk_select", "r", {"key": [("i", x["tdb"].entries[rows_r[0] - 1]["rowid"])]}))
         elif after in ("ddl_drop", "drop_index", "alter_add", "vacuum_pagesize") and nstep % 3 != 0:
             # (every third time the listings are left out: the bracket then starts with an ordinary operation)
             for lop in ({"op": "tables" if after != "drop_index" else "indexes"}, {"op": "columns", "table": "r"}):
@@ -165,7 +172,7 @@ def run_history(v, h, toks, hid, rnd, page_size, nrows, tier):
             body = plan[len(lead):]
             rot = (group // 2) % max(1, len(body))
             body = body[rot:] + body[:rot]
-            plan = (list(lead) + body) if group % 4 < 2 else (body[:1] + list(lead) + body[1:])
+            plan = (list(lead) + body) if (group % 4 < 2 or after == "alter_add") else (body[:1] + list(lead) + body[1:])
             for kind, op, tn, kw in plan:
                 k = ops.add_hl(x["name"], op, tn, x["desc"], meta={"cls": "h%d/%s/%s" % (hid, op, tn)}, **kw)
                 ops.items[k]["h"]["id"] = next_id()
